@@ -74,6 +74,11 @@ def build(r, leaf_str=False, via="ctor", style=0, memo=None, _root=True):
             dflt = [byid.get(i, i) for i in dflt]
         if via == "from_list":
             return cls.from_list(args, variable=ident, default=dflt or [])
+        if dflt:
+            # the defaults as a list, a tuple, or (a single one) a set: any collection of ids / propositions
+            f = (len(args) + len(str(r["d"]))) % 3
+            if f == 1: dflt = tuple(dflt)
+            elif f == 2 and len(dflt) == 1 and isinstance(dflt[0], str): dflt = set(dflt)
         return cls(*args, default=dflt, variable=ident)
     if c == "Cfg":
         import puan.modules.configurator as cc
